@@ -32,7 +32,7 @@ def gen_tree(rng, root):
     """-> Tree with .files {abs path: [lines]}, .main, .incdirs, .flat [lines], .names {basename used}"""
     t = Tree()
     t.files = {}
-    t.incdirs = [os.path.join(root, 'inc%d' % i) for i in range(rng.randint(0, 2))]
+    t.incdirs = [os.path.join(root, n) for n in ['zz_inc0', 'aa_inc1'][:rng.randint(0, 2)]]       # search path order is not alphabetical order
     src = os.path.join(root, 'proj', 'src')
     dirs = {'same': src, 'sub': os.path.join(src, 'sub'), 'sib': os.path.join(root, 'proj', 'common')}
     t.main = os.path.join(src, 'main.asm')
@@ -136,6 +136,23 @@ def gen_tree(rng, root):
     return t
 
 
+def write_decoys(t):
+    """a search path is ordered: a file of the same name in a *later* -i directory is never the one that is spliced in"""
+    if len(t.incdirs) != 2:
+        return 0
+    n = 0
+    first = os.path.normpath(t.incdirs[0])
+    for path in list(t.files):
+        if os.path.dirname(os.path.normpath(path)) == first:
+            decoy = os.path.join(t.incdirs[1], os.path.basename(path))
+            if os.path.normpath(decoy) not in [os.path.normpath(p) for p in t.files]:
+                os.makedirs(t.incdirs[1], exist_ok=True)
+                with open(decoy, 'w') as f:
+                    f.write('addi x31, x31, 31\naddi x31, x31, 31\naddi x31, x31, 31\n')
+                n += 1
+    return n
+
+
 def write_tree(t, root):
     for k, (path, lines) in enumerate(t.files.items()):
         os.makedirs(os.path.dirname(path), exist_ok=True)
@@ -161,6 +178,7 @@ def run_tree(asm, acc, seed, idx, ncli):
     try:
         t = gen_tree(rng, root)
         decoy = write_tree(t, root)
+        acc['ctr']['same_name_decoys_in_a_later_include_dir'] += write_decoys(t)
         flat_src = '\n'.join(t.flat) + '\n'
         srcdir = os.path.dirname(t.main)
         cwds = {'rootdir': srcdir, 'slash': '/', 'empty': os.path.join(root, 'empty'), 'decoy': decoy, 'ancestor': root}
